@@ -39,7 +39,7 @@ theorem inv_step {cfg : Cfg} {s s' : State} {a : Action} (hg : cfg.std = true) (
   · exact inv_dret hg h hs
   · exact inv_gpass hg h hs
   · exact inv_nstart h hs
-  · exact inv_nrun h hs
+  · exact inv_nrun hg h hs
   · exact inv_nwrite h hs
   · cases hs; exact inv_ack hg h
   · exact inv_cancel h hs
